@@ -256,8 +256,13 @@ def compose_binary(schema, steps, block=None):
         else:
             i = 0
             n = len(data)
+            part = list(block) if isinstance(block, (list, tuple)) else None     # explicit block lengths
             while i < n:
-                b = n - i if not block else min(block, n - i)
+                if part is not None:
+                    b = part.pop(0) if part else n - i
+                    b = min(b, n - i)
+                else:
+                    b = n - i if not block else min(block, n - i)
                 out += varint(b)
                 for x in data[i:i + b]:
                     out += x
